@@ -200,18 +200,21 @@ def r02_4(ctx, rep):
                 keyed.add(lay[0])
     n = 0
     seen = {}
+    tables_hit = set()
     for which, site in (("struct", SITE_STRUCT), ("parse", SITE_PARSE)):
         for e in pc.events(which, "write"):
             up = sql_norm(e.detail).upper()
             if up.startswith(("INSERT", "REPLACE")) and table_of(e.detail) in keyed:
                 n += 1
+                tables_hit.add(table_of(e.detail))
                 ok = up.startswith("REPLACE") or up.startswith("INSERT OR REPLACE") or up.startswith("INSERT OR IGNORE")
                 # bound key for uniqueness of instance
                 bound = norm(e.call.args[1]) if len(e.call.args) > 1 else ""
                 key = "execute:%s | %s" % (sql_norm(e.detail), bound.split(",")[0])
                 rep.ob("R02.4", site, key, ok, "plain INSERT into a keyed table raises IntegrityError in the loser of a race")
-    if n < 3:
-        raise MechanismMissing("R02.4", "fewer than 3 INSERT statements into keyed tables found")
+    # anti-vacuity: both keyed tables are written somewhere (how many statements that takes is a matter of spelling: two INSERTs or one in a loop)
+    if len(tables_hit) < 2:
+        raise MechanismMissing("R02.4", "INSERT statements found for %s only, expected both keyed tables" % sorted(tables_hit))
 
 
 @SPEC.rule("R02.5", "no call to _parse (seconds of work) while a transaction is open")
